@@ -43,6 +43,13 @@ type Engine interface {
 	Shrink(plan interface{}, try func(cand interface{}) bool) interface{}
 }
 
+// IndexedGenerator is implemented by engines part of whose run indices are a
+// systematic corpus rather than seeded draws (nil = draw from the seed).
+type IndexedGenerator interface {
+	GenIndexed(prop, tier string, idx uint64) interface{}
+	SystematicTotal(prop, tier string) uint64
+}
+
 // FreshProcesser is implemented by engines some of whose plans must be the
 // first thing that happens in their process.
 type FreshProcesser interface {
